@@ -386,13 +386,30 @@ pub fn strat(t: Tier) -> BoxedStrategy<Case> {
                 c09::pattern_text(sh, m, text_max),
                 k255(m),
                 Just(width),
-                proptest::collection::vec((crate::engine::gen::seq(sigma, b'a', 0..=text_max), k255(m)), 0..=2),
+                proptest::collection::vec((crate::engine::gen::seq(sigma, b'a', 0..=text_max), k255(m), 0u8..8, any::<u16>()), 0..=2),
                 proptest::collection::vec(prop_oneof![3 => Just(LazyOp::Next), 3 => any::<u16>().prop_map(LazyOp::At), 1 => (0u8..4).prop_map(LazyOp::Unsearched)], 0..=10),
             )
         })
         .prop_map(|((p, t, ambig, wildcards), k, width, more, script)| {
             // further texts: half of them contain the pattern's plain symbols so that hits arise
-            let more = more.into_iter().map(|(t, k)| (B(t), k)).collect();
+            // further texts: random over the pattern's alphabet, entirely foreign to it (no symbol of the
+            // pattern occurs), or starting with a suffix of the pattern
+            let more = more
+                .into_iter()
+                .map(|(t, k, shape, frac)| {
+                    let t = match shape {
+                        5 | 6 => t.iter().map(|c| b'w' + (c - b'a') % 4).collect(),
+                        7 => {
+                            let j = crate::engine::gen::idx(frac, p.len() - 1);
+                            let mut v: Vec<u8> = p[j..].iter().map(|&c| if c == b'n' { b'a' } else { c }).collect();
+                            v.extend(t.iter().take(20));
+                            v
+                        }
+                        _ => t,
+                    };
+                    (B(t), k)
+                })
+                .collect();
             Case { base: MyersCase { pattern: B(p), text: B(t), k, width, ambig, wildcards }, more, script }
         })
         .boxed()
